@@ -37,7 +37,10 @@ RULE = (
     "(including refused calls) on one object, second result and final observation equal to those of a fresh object. "
     "flavour: every site x every listed array flavour / numpy scalar type / empty piece, result equal to that of the "
     "contiguous array of the documented dtype. order: every permutation of references, tables, selection pairs, dict keys "
-    "and rows, result equal as multiset. A case is counted once; it is non-trivial when "
+    "and rows, result equal as multiset. derived: every listed producer (create_kmers, get_kmers, selector output, "
+    "{kmer: table[kmer]}, count(), spacing, similar_kmers, sliced / stepped / reversed / masked / index-selected / copied / "
+    "concatenated sequences) x every consumer whose argument type fits, result equal to that for an equal-valued object "
+    "built directly. A case is counted once; it is non-trivial when "
     "the model's result set (triples / selected positions / similar k-mers) is non-empty and, for tables, at least "
     "one k-mer of the reference is stored."
 )
@@ -744,6 +747,8 @@ def bounds(tier):
                   "3 permutations, 3 similarity rules, 2 k-mer alphabets, the module-level default bucket count; every ordered "
                   "pair of their listed operations (28 for a table)"},
         "flavour": {"layouts": list(LAYOUTS), "other_types": list(OTHER_TYPES), "numpy_scalars": list(SCALARS)},
+        "derived": "24 k-mer-array producers x up to 21 consumers, 11 selector outputs x 4 table consumers, table -> from_positions / "
+                   "FrequencyPermutation / KmerAlphabet, 10 (12 for nucleotides) derived sequences x 13 sequence consumers",
         "order": "all permutations of 3 references / 3 tables / 4 selection pairs / 3 dict keys x 3 rows; match_table argument swap",
         "alias": {"scenarios": len(alias_scenarios(tier)), "spacing_forms": list(SPACING_FORMS),
                   "spacing_models": "KmerAlphabet: every k-subset of [0, k+2) for k = 2, 3 in sorted and reversed order; table "
@@ -1289,6 +1294,10 @@ def sim_ops(ctx, env, tk, table, obs, q, rule, ss, mkcase):
                 req.extend((p, a, b) for a, b in e)
         if c not in sim and c in obs:
             opt.extend((p, a, b) for a, b in obs[c])
+    for p, c in q.opt:  # only gap positions of a spaced k-mer are masked: unspecified
+        for c2 in set(ss[c]) | {c}:
+            if c2 in obs:
+                opt.extend((p, a, b) for a, b in obs[c2])
     if opt:
         ctx.count("either_identical_not_similar")
     for op in ("match", "match_table"):
